@@ -132,7 +132,7 @@ def inputs(ctx):
                         f += len(ln["syms"]) * 2 + 40
                 ins.append({"id": "m%d" % n, "lines": lines, "doubled": doubled})
                 n += 1
-    for k in range(400 if ctx.quick else 20000):
+    for k in range(400 if ctx.quick else 80000):
         drop = rng.random() < 0.5
         parts = []
         nparts = rng.choice([1, 1, 2, 3])
